@@ -23,6 +23,18 @@ var (
 // ZzC11 runs the topic validator on one message for every payload shape and verifier outcome.
 func ZzC11() {
 	sub := &Subscriber[*zh.Hdr]{verifierSema: make(chan struct{})}
+	if zz.Bool("metrics") {
+		// WithSubscriberMetrics: the repo's own bookkeeping around the (opaque) otel instruments runs as code
+		m, err := newSubscriberMetrics()
+		zz.Assert(err == nil && m != nil, "metrics can be created")
+		sub.metrics = m
+		zz.Reach("metrics-enabled")
+		if zz.Bool("restarted") {
+			// Stop followed by Start: Stop closes the metrics, Start keeps the same object
+			_ = m.Close()
+			zz.Reach("restarted")
+		}
+	}
 	orig := &zh.Hdr{Chain: "c", H: 5, ID: 5, Prev: 4}
 	raw, _ := orig.MarshalBinary()
 
